@@ -112,6 +112,28 @@ Proof. intros q c. exact (generic_update_shape the_rens q c). Qed.
 Print Assumptions C13_update_clause_order.
 
 
+(* EVERY DELETE statement: DELETE, then FROM, index hints, joins, PREWHERE, WHERE, GROUP BY, HAVING, ORDER BY, row limit, FOR UPDATE *)
+Theorem C13_delete_clause_order : forall (q : query) (c : ctx) (p : pz) (s : str) (p' : pz),
+  has_upd q = false -> q_delete_from q = true -> q_on_conflict q = false ->
+  generic_with the_rens q c false false p = Ok (s, p') ->
+  exists sf sfi sui sj spw sw sg sh so sp pa pb,
+    s = L "DELETE" ++ sf ++ sfi ++ sui ++ sj ++ spw ++ sw ++ sg ++ sh ++ so ++ sp ++ for_update_sql q c /\
+    kw_or_empty (L " FROM ") sf /\ kw_or_empty (L " FORCE INDEX (") sfi /\ kw_or_empty (L " USE INDEX (") sui /\ kw_or_empty [32] sj /\
+    kw_or_empty (L " PREWHERE ") spw /\ kw_or_empty (L " WHERE ") sw /\ kw_or_empty (L " GROUP BY ") sg /\ kw_or_empty (L " HAVING ") sh /\
+    kw_or_empty (L " ORDER BY ") so /\ pagination the_rens q c pa = Ok (sp, pb).
+Proof. intros q c. exact (delete_shape the_rens q c). Qed.
+Print Assumptions C13_delete_clause_order.
+
+(* EVERY INSERT .. VALUES statement: WITH, INSERT INTO / REPLACE INTO / INSERT IGNORE INTO <table>, the column list, VALUES (rows), the upsert part *)
+Theorem C13_insert_clause_order : forall (q : query) (c : ctx) (p : pz) (s : str) (p' : pz),
+  has_upd q = false -> q_delete_from q = false -> q_select_into q = false -> has_ins q = true -> has_vals q = true ->
+  generic_with the_rens q c false false p = Ok (s, p') ->
+  exists sw kw st sc rows s1 s2,
+    s = sw ++ kw ++ st ++ sc ++ L " VALUES (" ++ rows ++ L ")" ++ s1 ++ s2 /\
+    kw_or_empty (L "WITH ") sw /\ insert_kw kw /\ kw_or_empty (L " (") sc /\ (q_on_conflict q = false -> s1 = [] /\ s2 = []).
+Proof. intros q c. exact (insert_values_shape the_rens q c). Qed.
+Print Assumptions C13_insert_clause_order.
+
 (* ---- the specification on examples ---- *)
 Example C13_wellformed_examples :
   wellformed SQLITE BGeneric (L "WITH c AS (SELECT ""a"" FROM ""t"") SELECT DISTINCT ""a"",COUNT(*) FROM ""t"" JOIN ""u"" ON ""t"".""a""=""u"".""a"" LEFT JOIN ""v"" USING (""a"") WHERE ""b""=1 GROUP BY ""a"" HAVING COUNT(*)>1 ORDER BY ""a"" LIMIT 1 OFFSET 2 FOR UPDATE") = Some true /\
